@@ -23,6 +23,7 @@ type Obligation struct {
 	Watch   []WatchTerm
 	Extra   []Term // additional assumptions (replay: small-scope bounds)
 	Spec    *Expr  // ensures: the clause itself (replay evaluates it on the real outputs)
+	Bound   string // non-empty: checked only under this bound on the inputs (bounded stand-in, not a proof)
 	relaxAxioms bool // cover checks: retry without the quantified background axioms
 }
 
